@@ -210,6 +210,26 @@ def order_provenance(ctx, f, name0, anchor, sorter, rule_attr):
         hops += 1
         assigns = [a for a in ast.walk(f.node) if isinstance(a, ast.Assign) and any(isinstance(t, ast.Name) and t.id == name for t in a.targets)
                    and a.lineno < line]
+        # `tasks, workers = self.__gather(...)`: the name is one component of what a private helper returns -- go on inside the helper
+        unpacked = [(a, i) for a in ast.walk(f.node) if isinstance(a, ast.Assign) and a.lineno < line and len(a.targets) == 1 and isinstance(a.targets[0], (ast.Tuple, ast.List))
+                    for i, t in enumerate(a.targets[0].elts) if isinstance(t, ast.Name) and t.id == name]
+        if unpacked and (not assigns or max(a.lineno for a, _i in unpacked) > max(a.lineno for a in assigns)):
+            a, i = max(unpacked, key=lambda x: x[0].lineno)
+            if isinstance(a.value, (ast.Tuple, ast.List)) and len(a.value.elts) == len(a.targets[0].elts):
+                assigns = assigns + [ast.copy_location(ast.Assign(targets=[ast.Name(id=name, ctx=ast.Store())], value=a.value.elts[i], type_comment=None), a)]
+            elif isinstance(a.value, ast.Call):
+                callees, resolved = ctx.types.ftypes(f).resolve_call(a.value)
+                if resolved and len(callees) == 1 and is_private_helper(callees[0]):
+                    h = callees[0]
+                    nested = {id(n) for d in ast.walk(h.node) if isinstance(d, (ast.FunctionDef, ast.Lambda)) and d is not h.node for n in ast.walk(d)}
+                    rets = [r for r in ast.walk(h.node) if isinstance(r, ast.Return) and id(r) not in nested]
+                    if len(rets) == 1 and isinstance(rets[0].value, ast.Tuple) and len(rets[0].value.elts) == len(a.targets[0].elts):
+                        comp = rets[0].value.elts[i]
+                        tmp = "__ret%d" % i
+                        # treat `return (..., comp, ...)` as `tmp = comp` at the return statement and continue there
+                        fake = ast.copy_location(ast.Assign(targets=[ast.Name(id=tmp, ctx=ast.Store())], value=comp, type_comment=None), rets[0])
+                        f, name, line = h, tmp, rets[0].lineno + 1
+                        assigns = [fake]
         if not assigns:
             why = f"`{name}` is never assigned before it is used"
             break
